@@ -56,7 +56,7 @@ package termincommittee
 //@   requires vcm != nil && vcm.content != nil
 //@   ensures [iff-the-header-bytes-are-their-own-reencoding] result == CanonVC(vcm)
 
-//@ pred TicOK(tic *TermInCommittee) = tic.State != nil && tic.messageFactory != nil && len(tic.committeeMembers) >= 4 && tic.storage != nil && tic.keyManager != nil && tic.blockUtils != nil && tic.electionTrigger != nil
+//@ pred TicOK(tic *TermInCommittee) = tic.State != nil && tic.messageFactory != nil && len(tic.committeeMembers) >= 4 && tic.storage != nil && tic.keyManager != nil && tic.blockUtils != nil && tic.electionTrigger != nil && tic.communication != nil
 //@   | && SumMW(tic.committeeMembers, len(tic.committeeMembers)) < 2^64
 //@   | && tic.messageFactory.memberId == tic.myMemberId && tic.messageFactory.keyManager == tic.keyManager && SignsAs(tic.keyManager, tic.myMemberId)
 //@   | && IsMember(tic.committeeMembers, tic.myMemberId)
@@ -269,9 +269,25 @@ package termincommittee
 
 // ---- effect boundaries of TermInCommittee ----
 
-// sending: the 5-line bodies (raw conversion + Communication SPI call) are trusted; the preconditions are C10.
+// sending: the bodies (raw conversion + Communication SPI call) are verified: what is handed to the transport is the raw
+// conversion of exactly this message, addressed to all other committee members (resp. to the one member given). Only the
+// bookkeeping of the ghost send log is assumed at call sites (`assume [A-GHOST.send-log]`: the bodies contain no ghost
+// code). The preconditions are C10 / C11.
+//@ pred RawOf(raw *interfaces.ConsensusRawMessage, message interfaces.ConsensusMessage) = raw != nil
+//@   | && (istype(message, *interfaces.PreprepareMessage) ==> WireTag(content(raw.Content)) == 0 && WirePayload(content(raw.Content)) == content(dyn(message, *interfaces.PreprepareMessage).content.Raw()) && raw.Block == dyn(message, *interfaces.PreprepareMessage).block)
+//@   | && (istype(message, *interfaces.PrepareMessage) ==> WireTag(content(raw.Content)) == 1 && WirePayload(content(raw.Content)) == content(dyn(message, *interfaces.PrepareMessage).content.Raw()))
+//@   | && (istype(message, *interfaces.CommitMessage) ==> WireTag(content(raw.Content)) == 2 && WirePayload(content(raw.Content)) == content(dyn(message, *interfaces.CommitMessage).content.Raw()))
+//@   | && (istype(message, *interfaces.ViewChangeMessage) ==> WireTag(content(raw.Content)) == 3 && WirePayload(content(raw.Content)) == content(dyn(message, *interfaces.ViewChangeMessage).content.Raw()) && raw.Block == dyn(message, *interfaces.ViewChangeMessage).block)
+//@   | && (istype(message, *interfaces.NewViewMessage) ==> WireTag(content(raw.Content)) == 4 && WirePayload(content(raw.Content)) == content(dyn(message, *interfaces.NewViewMessage).content.Raw()) && raw.Block == dyn(message, *interfaces.NewViewMessage).block)
 //@ func (*TermInCommittee).sendConsensusMessage
-//@   trusted
+//@   props C10 C11 C12
+//@   safety iface
+//@   requires [A-NONNIL.transport-configured] tic.communication != nil
+//@   requires [well-formed] (istype(message, *interfaces.PreprepareMessage) ==> dyn(message, *interfaces.PreprepareMessage) != nil && dyn(message, *interfaces.PreprepareMessage).content != nil)
+//@     | && (istype(message, *interfaces.PrepareMessage) ==> dyn(message, *interfaces.PrepareMessage) != nil && dyn(message, *interfaces.PrepareMessage).content != nil)
+//@     | && (istype(message, *interfaces.CommitMessage) ==> dyn(message, *interfaces.CommitMessage) != nil && dyn(message, *interfaces.CommitMessage).content != nil)
+//@     | && (istype(message, *interfaces.NewViewMessage) ==> dyn(message, *interfaces.NewViewMessage) != nil && dyn(message, *interfaces.NewViewMessage).content != nil)
+//@   assert before call SendConsensusMessage [O10.what-goes-to-the-transport-is-the-conversion-of-this-message-addressed-to-all-other-members] RawOf($message, message) && $recipients == tic.otherCommitteeMemberIds
 //@   requires [send.kind] istype(message, *interfaces.PreprepareMessage) || istype(message, *interfaces.PrepareMessage) || istype(message, *interfaces.CommitMessage) || istype(message, *interfaces.NewViewMessage)
 //@   requires [O10.1.one-prepare-per-view] istype(message, *interfaces.PrepareMessage) ==> !sentPrepare[dyn(message, *interfaces.PrepareMessage).content.SignedHeader().View()]
 //@   requires [O10.1.prepare-in-current-view] istype(message, *interfaces.PrepareMessage) ==> dyn(message, *interfaces.PrepareMessage).content.SignedHeader().View() == tic.State.view
@@ -291,16 +307,16 @@ package termincommittee
 //@   requires [C11:O11.1.an-emitted-prepare-is-one-a-peer-accepts] istype(message, *interfaces.PrepareMessage) ==> EmittedPrepare(tic, dyn(message, *interfaces.PrepareMessage))
 //@   requires [C11:O11.1.an-emitted-commit-is-one-a-peer-accepts] istype(message, *interfaces.CommitMessage) ==> EmittedCommit(tic, dyn(message, *interfaces.CommitMessage))
 //@   modifies ghost:sentPrepare, ghost:sentPrepareHash, ghost:sentCommit, ghost:sentCommitHash, ghost:proposed
-//@   ensures istype(message, *interfaces.PreprepareMessage) ==> proposed[dyn(message, *interfaces.PreprepareMessage).content.SignedHeader().View()]
-//@   ensures istype(message, *interfaces.NewViewMessage) ==> proposed[dyn(message, *interfaces.NewViewMessage).content.SignedHeader().View()]
-//@   ensures forall v int :: !(istype(message, *interfaces.PreprepareMessage) && v == dyn(message, *interfaces.PreprepareMessage).content.SignedHeader().View())
+//@   assume [A-GHOST.send-log] istype(message, *interfaces.PreprepareMessage) ==> proposed[dyn(message, *interfaces.PreprepareMessage).content.SignedHeader().View()]
+//@   assume [A-GHOST.send-log] istype(message, *interfaces.NewViewMessage) ==> proposed[dyn(message, *interfaces.NewViewMessage).content.SignedHeader().View()]
+//@   assume [A-GHOST.send-log] forall v int :: !(istype(message, *interfaces.PreprepareMessage) && v == dyn(message, *interfaces.PreprepareMessage).content.SignedHeader().View())
 //@     | && !(istype(message, *interfaces.NewViewMessage) && v == dyn(message, *interfaces.NewViewMessage).content.SignedHeader().View()) ==> proposed[v] == old(proposed[v])
-//@   ensures istype(message, *interfaces.PrepareMessage) ==> sentPrepare[dyn(message, *interfaces.PrepareMessage).content.SignedHeader().View()]
+//@   assume [A-GHOST.send-log] istype(message, *interfaces.PrepareMessage) ==> sentPrepare[dyn(message, *interfaces.PrepareMessage).content.SignedHeader().View()]
 //@     | && sentPrepareHash[dyn(message, *interfaces.PrepareMessage).content.SignedHeader().View()] == content(dyn(message, *interfaces.PrepareMessage).content.SignedHeader().BlockHash())
-//@   ensures istype(message, *interfaces.CommitMessage) ==> sentCommit[dyn(message, *interfaces.CommitMessage).content.SignedHeader().View()]
+//@   assume [A-GHOST.send-log] istype(message, *interfaces.CommitMessage) ==> sentCommit[dyn(message, *interfaces.CommitMessage).content.SignedHeader().View()]
 //@     | && sentCommitHash[dyn(message, *interfaces.CommitMessage).content.SignedHeader().View()] == content(dyn(message, *interfaces.CommitMessage).content.SignedHeader().BlockHash())
-//@   ensures forall v int :: (!istype(message, *interfaces.PrepareMessage) || v != dyn(message, *interfaces.PrepareMessage).content.SignedHeader().View()) ==> sentPrepare[v] == old(sentPrepare[v]) && sentPrepareHash[v] == old(sentPrepareHash[v])
-//@   ensures forall v int :: (!istype(message, *interfaces.CommitMessage) || v != dyn(message, *interfaces.CommitMessage).content.SignedHeader().View()) ==> sentCommit[v] == old(sentCommit[v]) && sentCommitHash[v] == old(sentCommitHash[v])
+//@   assume [A-GHOST.send-log] forall v int :: (!istype(message, *interfaces.PrepareMessage) || v != dyn(message, *interfaces.PrepareMessage).content.SignedHeader().View()) ==> sentPrepare[v] == old(sentPrepare[v]) && sentPrepareHash[v] == old(sentPrepareHash[v])
+//@   assume [A-GHOST.send-log] forall v int :: (!istype(message, *interfaces.CommitMessage) || v != dyn(message, *interfaces.CommitMessage).content.SignedHeader().View()) ==> sentCommit[v] == old(sentCommit[v]) && sentCommitHash[v] == old(sentCommitHash[v])
 
 // the commit callback (leanhelixterm.CommitsToProof -> WorkerLoop.onCommit): C03 / C04 / C13
 //@ dep field:termincommittee.TermInCommittee.onCommit
@@ -656,14 +672,18 @@ package termincommittee
 //@   ensures true
 
 //@ func (*TermInCommittee).sendConsensusMessageToSpecificMember
-//@   trusted
+//@   props C10 C11 C12
+//@   safety iface
+//@   requires [A-NONNIL.transport-configured] tic.communication != nil
+//@   requires [well-formed] dyn(message, *interfaces.ViewChangeMessage) != nil && dyn(message, *interfaces.ViewChangeMessage).content != nil
+//@   assert before call SendConsensusMessage [O10.what-goes-to-the-transport-is-the-conversion-of-this-vote-addressed-to-that-member] RawOf($message, message) && len($recipients) == 1 && $recipients[0] == targetMemberId
 //@   requires [O10.6.only-votes-are-unicast] istype(message, *interfaces.ViewChangeMessage)
 //@   requires [C11:O11.1.an-emitted-vote-is-one-its-leader-accepts] EmittedVote(tic, dyn(message, *interfaces.ViewChangeMessage))
 //@   requires [O10.6.vote-for-the-view-just-entered] dyn(message, *interfaces.ViewChangeMessage).content.SignedHeader().View() == tic.State.view
 //@   requires [O10.6.vote-views-strictly-increase] dyn(message, *interfaces.ViewChangeMessage).content.SignedHeader().View() > lastVC
 //@   requires [O10.6.addressed-to-the-leader-of-that-view] targetMemberId == LeaderOf(tic.committeeMembers, dyn(message, *interfaces.ViewChangeMessage).content.SignedHeader().View())
 //@   modifies ghost:lastVC
-//@   ensures lastVC == dyn(message, *interfaces.ViewChangeMessage).content.SignedHeader().View()
+//@   assume [A-GHOST.send-log] lastVC == dyn(message, *interfaces.ViewChangeMessage).content.SignedHeader().View()
 
 //@ func (*TermInCommittee).moveToNextLeaderByElection
 //@   props C09 C10 C19 C07 C12 C11
@@ -692,7 +712,7 @@ package termincommittee
 //@   assert before call startTerm [hint.the-new-term-shares-the-node-state] $tic.State == state && state.view >= 0 && $tic.latestViewThatProcessedVCMOrNVM == 0
 //@   props C12 C08 C10 C11
 //@   safety iface
-//@   requires [A-NONNIL.the-configured-spi-objects-are-present] config != nil && config.KeyManager != nil && config.BlockUtils != nil && config.Membership != nil && state != nil && messageFactory != nil && electionTrigger != nil
+//@   requires [A-NONNIL.the-configured-spi-objects-are-present] config != nil && config.KeyManager != nil && config.BlockUtils != nil && config.Membership != nil && config.Communication != nil && state != nil && messageFactory != nil && electionTrigger != nil
 //@   requires [committee.at-least-the-hard-minimum] len(committeeMembers) >= 4
 //@   requires [committee.weight-fits-64-bits] SumMW(committeeMembers, len(committeeMembers)) < 2^64
 //@   requires [committee.this-node-is-a-member] IsMember(committeeMembers, config.Membership.MyMemberId())
@@ -704,6 +724,12 @@ package termincommittee
 //@   ensures [wired-to-what-was-handed-in] result.State == state && result.keyManager == config.KeyManager && result.messageFactory == messageFactory && result.blockUtils == config.BlockUtils && result.electionTrigger == electionTrigger && result.myMemberId == config.Membership.MyMemberId()
 //@   ensures [committee-kept] len(result.committeeMembers) == len(committeeMembers) && (forall ck :: 0 <= ck && ck < len(committeeMembers) ==> result.committeeMembers[ck].Id == committeeMembers[ck].Id && result.committeeMembers[ck].Weight == committeeMembers[ck].Weight)
 //@   ensures [height-untouched] state.height == old(state.height)
+//@   ensures [C11.broadcasts-go-to-every-other-member-and-not-to-this-node] (forall ok :: 0 <= ok && ok < len(committeeMembers) && committeeMembers[ok].Id != config.Membership.MyMemberId() ==> (exists op :: 0 <= op && op < len(result.otherCommitteeMemberIds) && result.otherCommitteeMemberIds[op] == committeeMembers[ok].Id))
+//@     | && (forall op :: 0 <= op && op < len(result.otherCommitteeMemberIds) ==> result.otherCommitteeMemberIds[op] != config.Membership.MyMemberId())
+//@   loop range committeeMembers
+//@     invariant [others-so-far] (forall ok :: 0 <= ok && ok < $i && committeeMembers[ok].Id != myMemberId ==> (exists op :: 0 <= op && op < len(otherCommitteeMemberIds) && otherCommitteeMemberIds[op] == committeeMembers[ok].Id))
+//@     invariant [never-this-node] forall op :: 0 <= op && op < len(otherCommitteeMemberIds) ==> otherCommitteeMemberIds[op] != myMemberId
+//@     invariant [frame] myMemberId == config.Membership.MyMemberId()
 
 //@ func (*TermInCommittee).startTerm
 //@   assert before call For [O15.7.proposal-requested-under-the-context-of-its-own-view] $hv.height == tic.State.height && $hv.view == 0
